@@ -14,13 +14,14 @@ import Paroxy.Proofs.FlatTweaks
 import Paroxy.Proofs.FlatAlias
 import Paroxy.Proofs.FlatBackport
 import Paroxy.Proofs.FlatNeg
+import Paroxy.Proofs.FlatEscape
 namespace Paroxy.Props.C15
 open Paroxy.Flat
 
 /-- What `flatten_ast` computes: the post-processing of the *pure* dump of the tree (after the
 on-the-fly reordering / renaming), hashes numbered by first occurrence from a fresh factory. -/
 theorem C15_flatten_eq (cfg : Cfg) (s : HashState) (t : Val) :
-    (flattenAst cfg s t).1 = postProcess (dumpP (hashFn (onTheFly cfg t)) [] [] (onTheFly cfg t)) := by
+    (flattenAst cfg s t).1 = postProcess (dumpP (hashFn (prep cfg t)) [] [] (prep cfg t)) := by
   simp [flattenAst, dumpS_reset]
 
 /-- **C15 (pre-order, exactly once).** The dump of any tree is the concatenation, over the pre-order
@@ -219,9 +220,9 @@ theorem C15_tweaks_full (t0 : Val) (ty : Str) (e : Bool) (r : Str) (ln : Option 
 well-formed is the plain dump of the six tree-level tweaks of that form, hashes numbered by first
 occurrence in the untweaked tree. -/
 theorem C15_flatten_tweaked (cfg : Cfg) (s : HashState) (t : Val) (ty : Str) (e : Bool) (r : Str)
-    (ln : Option Nat) (fs : List (Str × Val)) (ht : onTheFly cfg t = .node ty e r ln fs)
-    (hwf : wfStages6 (onTheFly cfg t) = true) :
-    (flattenAst cfg s t).1 = dumpP (hashFn (onTheFly cfg t)) [] [] (stage6 (onTheFly cfg t)) := by
+    (ln : Option Nat) (fs : List (Str × Val)) (ht : prep cfg t = .node ty e r ln fs)
+    (hwf : wfStages6 (prep cfg t) = true) :
+    (flattenAst cfg s t).1 = dumpP (hashFn (prep cfg t)) [] [] (stage6 (prep cfg t)) := by
   rw [C15_flatten_eq, ht] at *
   exact C15_tweaks_full _ ty e r ln fs hwf
 
@@ -262,6 +263,22 @@ example : dumpP id [] [] (stage6 sampleNeg) =
     [cs!"/_type=Module", cs!"/body/_length=1", cs!"/body/1/_type=Expr", cs!"/body/1/_pos=1:1-",
      cs!"/body/1/value/_type=Num", cs!"/body/1/value/_hash=UnaryOp(op=USub(), operand=Constant(value=5))",
      cs!"/body/1/value/_pos=1:1-0-", cs!"/body/1/value/n=-5"] := by decide
+
+/-! ## Escaped terminal values (fix b1d74a8; former findings F17 / F32) -/
+
+/-- The dump that escapes `_pos=` in its scalar case — what `flatten_node` does — is the plain dump of the
+tree whose terminal values are escaped (`prep` = on-the-fly tweaks, then `escapeTree`). -/
+theorem C15_escape_at_dump (h : Str → Str) (v : Val) (pre path : Str) :
+    dumpPE h pre path v = dumpP h pre path (escapeTree v) := dumpPE_eq h v pre path
+
+/-- No `_pos=` survives in an escaped value… -/
+theorem C15_escapePos_no_pos (r : Str) : hasInfix cs!"_pos=" (escapePos r) = false := escapePos_no_pos r
+
+/-- … hence the line of an escaped value is never taken for a position line (the clause of `wfAlias`
+about scalar lines holds whatever a string constant contains), as long as the *field name* does not end
+with `_pos`. -/
+theorem C15_escaped_value_not_poslike (pre r : Str) (hpre : '=' ∉ pre) (hsuf : ¬ cs!"_pos" <:+ pre) :
+    isPosLike (scalarLine pre (escapePos r)) = false := not_posLike_escaped r hpre hsuf
 
 /-! ## The repaired findings (positive statements) and a witness of the recorded one -/
 
